@@ -3,8 +3,8 @@
 Require Extraction.
 Require Import ExtrOcamlBasic.
 From Coq Require Import ZArith List.
-From LasV Require Import Lib.Base Gen.GenDims Model.HeaderOps Model.HeaderAttr.
+From LasV Require Import Lib.Base Gen.GenDims Model.HeaderOps Model.HeaderAttr Model.HeaderRoute.
 Extraction Language OCaml.
 Extraction "../ocaml/c07/model.ml"
   Z.add Z.mul Z.sub Z.div_eucl Z.compare Z.of_nat Z.to_nat
-  hstep2 hrun2 htrace2.
+  hstep2 hrun2 htrace2 route_computed route_computed_names sync_computed.
